@@ -139,6 +139,7 @@ func genState(tier string, r *hx.Rand) []*hx.Case {
 }
 
 func executeState(c *hx.Case) (*hx.Result, error) {
+	caseWedged = false
 	dir, err := os.MkdirTemp("", "verif-c15-state-")
 	if err != nil {
 		return nil, err
@@ -177,7 +178,7 @@ func executeState(c *hx.Case) (*hx.Result, error) {
 		select {
 		case err := <-ret:
 			return err
-		case <-time.After(waitFor):
+		case <-time.After(bound()):
 			timedOut()
 			return fmt.Errorf("no answer")
 		}
